@@ -385,9 +385,21 @@ func r132(c *Ctx) {
 		for _, r := range callsTo(rew, rc) {
 			rcVal = r.instr.(*ssa.Call)
 		}
-		_, nn := nilKnowledge(cs.instr, sameAs(rcVal))
-		pfx, _, ok := fieldLoad(cs.common().Args[1])
-		c.ob(rule, "rewrite/trim-only-with-routing-context", cs.pos(), rcVal != nil && nn && ok && pfx.Name() == "MatchedPrefix", true, "")
+		// what is trimmed is the matched prefix of the routing context when there is one - or nothing ("" trims nothing)
+		okTrim, nReal := rcVal != nil, 0
+		for _, vc := range valueCases(cs.common().Args[1], cs.instr.Block()) {
+			if sv, isConst := constString(vc.val); isConst && sv == "" {
+				continue
+			}
+			pfx, _, ok := fieldLoad(vc.val)
+			_, nn := nilKnowledgeOf(vc.conds, sameAs(rcVal))
+			if ok && pfx.Name() == "MatchedPrefix" && nn {
+				nReal++
+			} else {
+				okTrim = false
+			}
+		}
+		c.ob(rule, "rewrite/trim-only-with-routing-context", cs.pos(), okTrim && nReal >= 1, true, "")
 	}
 	serve := c.method("Router", "ServeHTTP")
 	okCtx := false
@@ -473,15 +485,32 @@ func r134(c *Ctx) {
 	c.floor(rule, 5)
 	fh := c.method("Target", "forwardHeaders")
 	fwdF := c.field("TargetOptions", "ForwardHeaders")
-	var sxf ssa.Instruction
+	// (one call on every path: a single unconditional one, or one per branch)
+	var sxfs []ssa.Instruction
 	for _, cs := range callsToName(fh, "(*net/http/httputil.ProxyRequest).SetXForwarded") {
-		sxf = cs.instr
+		sxfs = append(sxfs, cs.instr)
 	}
-	if !c.ob(rule, "forwardHeaders/SetXForwarded-called", fh.Pos(), sxf != nil, true, "") {
+	if !c.ob(rule, "forwardHeaders/SetXForwarded-called", fh.Pos(), len(sxfs) > 0, true, "") {
 		return
 	}
-	_, skip := reach(fh, nil, isReturn, func(in ssa.Instruction) bool { return in == sxf })
-	c.ob(rule, "forwardHeaders/SetXForwarded-on-every-path", sxf.Pos(), !skip && len(dominatingConds(sxf.Block())) == 0, true, "X-Forwarded-For/-Proto/-Host must always be (re)computed from the actual client connection")
+	isSXF := func(in ssa.Instruction) bool {
+		for _, x := range sxfs {
+			if x == in {
+				return true
+			}
+		}
+		return false
+	}
+	sxf := sxfs[0]
+	_, skip := reach(fh, nil, isReturn, isSXF)
+	// ... and exactly one: no path runs it twice (the second would append the client address again)
+	twice := false
+	for _, x := range sxfs {
+		if _, again := reach(fh, x, isSXF, nil); again {
+			twice = true
+		}
+	}
+	c.ob(rule, "forwardHeaders/SetXForwarded-on-every-path", sxf.Pos(), !skip && !twice, true, "X-Forwarded-For/-Proto/-Host must always be (re)computed from the actual client connection, once")
 	for _, t := range c.requestTouches() {
 		if t.fn != fh {
 			continue
@@ -490,10 +519,24 @@ func r134(c *Ctx) {
 		c.ob(rule, "forwardHeaders/"+t.hdr+"-client-value-only-when-forwarding", t.in.Pos(), on && t.side == "Out", true, "client-supplied forwarding headers may reach the outbound request only under options.ForwardHeaders")
 		switch t.hdr {
 		case "X-Forwarded-For":
-			_, after := reach(fh, t.in, func(in ssa.Instruction) bool { return in == sxf }, nil)
-			c.ob(rule, "forwardHeaders/X-Forwarded-For-copied-before-SetXForwarded", t.in.Pos(), after && !dominates(sxf, t.in), true, "the client chain must be in place before SetXForwarded so that the client address is appended to it")
+			// every way on from the copy runs SetXForwarded, and none has run before it
+			_, missed := reach(fh, t.in, isReturn, isSXF)
+			_, before := reach(fh, nil, func(in ssa.Instruction) bool { return in == t.in }, func(in ssa.Instruction) bool { return false })
+			ranBefore := false
+			for _, x := range sxfs {
+				if _, then := reach(fh, x, func(in ssa.Instruction) bool { return in == t.in }, nil); then {
+					ranBefore = true
+				}
+			}
+			c.ob(rule, "forwardHeaders/X-Forwarded-For-copied-before-SetXForwarded", t.in.Pos(), before && !missed && !ranBefore, true, "the client chain must be in place before SetXForwarded so that the client address is appended to it")
 		default:
-			c.ob(rule, "forwardHeaders/"+t.hdr+"-override-after-SetXForwarded", t.in.Pos(), dominates(sxf, t.in), true, "")
+			domd := false
+			for _, x := range sxfs {
+				if dominates(x, t.in) {
+					domd = true
+				}
+			}
+			c.ob(rule, "forwardHeaders/"+t.hdr+"-override-after-SetXForwarded", t.in.Pos(), domd, true, "")
 		}
 		// value comes from the inbound (In) request's header of the same name
 		srcOK := false
